@@ -21,6 +21,8 @@ pub struct TapEvent {
     /// Ok, or the program error as u64-coded ProgramError string
     pub result: Result<(), ProgramError>,
     pub panicked: bool,
+    /// where the program panicked (message + first program frame), if it did
+    pub panic_site: Option<String>,
 }
 
 impl TapEvent {
